@@ -541,6 +541,9 @@ static ssize_t do_write(int fd, const void *buf, size_t count, const char *nm) {
         case A_ERRNO:
             r->fired++;
             logf_("%lu write %s n=%zu -> -1 errno=%ld FAULT\n", seq++, nm, count, r->a1);
+            /* a write to a pipe nobody reads raises SIGPIPE as well as failing with EPIPE: a process that has not
+               chosen to ignore the signal dies here, as it would under the kernel */
+            if (r->a1 == EPIPE) raise(SIGPIPE);
             errno = (int)r->a1; return -1;
         case A_EINTR:
             if (r->eintr_left > 0) {
